@@ -16,7 +16,32 @@ package redis
 
 import (
 	"errors"
+
+	"github.com/cybergarage/go-redis/redis/auth"
 )
+
+// requirePassAuthenticator checks the credentials of a connection against the
+// requirepass parameter as it is configured at that moment, so that a password
+// which is set, changed or removed while the server is running (CONFIG SET,
+// SetRequirePass, RemoveRequirePass) is the one AUTH has to present.
+type requirePassAuthenticator struct {
+	config *ServerConfig
+}
+
+// Authenticate authenticates the specified connection.
+func (authenticator *requirePassAuthenticator) Authenticate(conn auth.Conn) (bool, error) {
+	required, ok := authenticator.config.ConfigRequirePass()
+	if !ok {
+		return true, nil
+	}
+	if user, ok := conn.UserName(); ok && user != "" {
+		return false, auth.ErrAuthrizationFailed
+	}
+	if password, ok := conn.Password(); ok && password != required {
+		return false, auth.ErrAuthrizationFailed
+	}
+	return true, nil
+}
 
 func (server *Server) Auth(conn *Conn, username string, password string) (*Message, error) {
 	if len(password) == 0 {
